@@ -96,6 +96,9 @@ func (f *faultReaderAt) ReadAt(p []byte, off int64) (int, error) {
 	case "err":
 		f.plan.hit()
 		return 0, errInjected
+	case "err-wrapping-eof": // a real failure whose error wraps io.EOF (errors.Is(err, io.EOF) is true, err == io.EOF is not)
+		f.plan.hit()
+		return 0, fmt.Errorf("read %d bytes at %d: connection lost: %w", len(p), off, io.EOF)
 	case "unexpected-eof":
 		f.plan.hit()
 		n := 0
@@ -133,6 +136,9 @@ func (f *faultReader) Read(p []byte) (int, error) {
 		f.plan.hit()
 		n, _ := f.r.Read(p[:(len(p)+1)/2])
 		return n, io.ErrUnexpectedEOF
+	case "err-wrapping-eof":
+		f.plan.hit()
+		return 0, fmt.Errorf("stream reset: %w", io.EOF)
 	case "short": // legal: fewer bytes than asked for, no error
 		if len(p) <= 1 {
 			return f.r.Read(p)
@@ -180,9 +186,9 @@ func c15FsPlan(rec *recfs.Fs, plan *faultPlan) {
 			}
 			plan.hit()
 			return "eof"
-		case kd == "eagain": // an errno the operating system classes as temporary
+		case kd == "eagain" || kd == "eintr": // errnos the operating system classes as temporary / interrupted
 			plan.hit()
-			return "eagain"
+			return kd
 		}
 		plan.hit()
 		return "err"
@@ -229,8 +235,8 @@ func c15Ops() []c15Op {
 	img := c15Image()
 	signed := c15SignedImage()
 	sigKinds := []string{"err"}
-	fsKinds := []string{"err", "short", "eagain"}
-	rdKinds := []string{"err", "unexpected-eof", "early-eof"}
+	fsKinds := []string{"err", "short", "eagain", "eintr"}
+	rdKinds := []string{"err", "unexpected-eof", "early-eof", "err-wrapping-eof"}
 	blobValue := func(b []byte, det []byte) string {
 		if v := refp7.ParseAndValid(b, cert, det); !v.OK {
 			return "INVALID-SIGNATURE: " + v.Reason
@@ -245,7 +251,7 @@ func c15Ops() []c15Op {
 		}
 		return c15Result{value: blobValue(b, content)}
 	}})
-	ops = append(ops, c15Op{"authenticode.SignAuthenticode", append(append([]string{}, sigKinds...), "err"), func(plan *faultPlan) c15Result {
+	ops = append(ops, c15Op{"authenticode.SignAuthenticode", append(append([]string{}, sigKinds...), "err", "err-wrapping-eof"), func(plan *faultPlan) c15Result {
 		b, err := authenticode.SignAuthenticode(&faultSigner{memoSignerFor(1), plan}, cert, &faultReader{bytes.NewReader(content), plan}, crypto.SHA256)
 		if err != nil {
 			return c15Result{err: err}
